@@ -4,7 +4,7 @@ import gens, blk, compcases as cc
 from capi import Lib, Buf
 from ctypes import c_int, byref
 
-THEOREMS = ["C06_fast_generic_strict", "C06_fast_extState_strict", "C06_fastReset_history_strict"]
+THEOREMS = ["C06_fast_generic_strict", "C06_fast_extState_strict", "C06_fastReset_history_strict", "C06_destSize_strict"]
 CORRESPONDENCE = ["Model.FastApi one-shot entry points == liblz4 (bytes, return value, context) on the same cases"]
 RULE = ("every successful output of {default, fast, extState, fastReset history, destSize, HC one-shot levels 1..12 (+favorDecSpeed), HC destSize, "
         "fast_continue and HC_continue on contiguous streams (history = previous blocks)} x capacity {bound, bound-1, n, n/2, random} is given to the decoder "
@@ -37,7 +37,7 @@ def one(st, rng, res, info, maxn):
     src = gens.data(rng, kind, n)
     b = cc.bound(n)
     cap = rng.choice([b, b, b + 1, max(0, b - 1), n, n // 2 + 8, rng.randrange(0, b + 2)])
-    fam = rng.choice(["fast", "fast", "hc", "hc", "dest", "hcdest", "stream", "hcstream", "hist"])
+    fam = rng.choice(["fast", "fast", "hc", "hc", "dest", "hcdest", "stream", "hcstream", "hist", "save", "hcsave"])
     info = dict(info, dkind=kind, n=n, cap=cap, fam=fam)
     def fail(what, **kw):
         res["fails"].append({"status": "prop_fail", "what": what, "detail": dict(info, **kw)})
@@ -73,6 +73,57 @@ def one(st, rng, res, info, maxn):
                 e = strict(st, b"", out, x)
                 if e: fail("fastReset history: %s" % e, sizes=[len(y) for y in srcs])
                 if blk.nontrivial_block(out): res["keys"].add(cc.key_of(x, "fr", pr[1], pr[0]))
+    elif fam in ("save", "hcsave"):
+        # block A, then LZ4_saveDict / LZ4_saveDictHC of a (possibly partial) dictionary into a work buffer, then block B
+        # placed right after the saved dictionary and sharing content with A: B must decode against exactly the saved bytes
+        hc = fam == "hcsave"
+        a_len = rng.choice([100, 1000, 5000, 70000]); b_len = rng.choice([50, 500, 4000])
+        A = gens.data(rng, rng.choice(["text", "selfdict", "random", "period"]), a_len)
+        B = bytearray(gens.data(rng, "random", b_len))
+        for _ in range(rng.choice([1, 3, 6])):           # B repeats content from all over A (old and recent)
+            l = rng.choice([8, 20, 64]); sa = rng.randrange(0, max(1, a_len - l)); sb = rng.randrange(0, max(1, b_len - l))
+            B[sb:sb + l] = A[sa:sa + l]
+        B = bytes(B[:b_len])
+        dsz = rng.choice([0, 3, 4, 64, 1000, 65536, 70000, a_len, max(0, a_len - 1)])
+        work = Buf(max(dsz, 70000, a_len) + b_len + 16, fill=0x77)
+        inplace = rng.random() < 0.5        # the usual single-work-buffer pattern: A itself lives at the start of `work`
+        if inplace:
+            work.write(0, A)
+            class _V: pass
+            abuf = _V(); abuf.p = work.p; abuf.free = lambda: None
+        else:
+            abuf = Buf(a_len, data=A)
+        if hc:
+            stb = blk.junk_state(lib, "hc", rng.randrange(1 << 30)); lib.initStreamHC(stb.p, stb.n)
+            lib.setCompressionLevel(stb.p, rng.choice(cc.LEVELS))
+        else:
+            stb = blk.junk_state(lib, "fast", rng.randrange(1 << 30)); lib.initStream(stb.p, stb.n)
+        d = Buf(cc.bound(a_len))
+        r = (lib.compress_HC_continue(stb.p, abuf.p, d.p, a_len, d.n) if hc else lib.compress_fast_continue(stb.p, abuf.p, d.p, a_len, d.n, 1))
+        res["evals"] += 1
+        outA = d.bytes(max(r, 0)); d.free()
+        if r <= 0 or strict(st, b"", outA, A):
+            fail("%s: first block failed or is not strictly valid" % fam)
+        else:
+            saved = (lib.saveDictHC if hc else lib.saveDict)(stb.p, work.p, dsz)
+            if saved < 0 or saved > min(dsz, 65536, a_len):
+                fail("%s returned %d for dictSize %d after a block of %d bytes" % ("LZ4_saveDictHC" if hc else "LZ4_saveDict", saved, dsz, a_len))
+            else:
+                if work.bytes(saved) != A[a_len - saved:]:
+                    fail("saved dictionary is not the last %d bytes of the previous block" % saved)
+                work.write(saved, B)
+                c2 = cc.bound(b_len); d2 = Buf(c2, fill=0xC3)
+                r2 = (lib.compress_HC_continue(stb.p, (work.p or 0) + saved, d2.p, b_len, c2) if hc
+                      else lib.compress_fast_continue(stb.p, (work.p or 0) + saved, d2.p, b_len, c2, 1))
+                res["evals"] += 1
+                outB = d2.bytes(max(r2, 0)); d2.free()
+                if r2 <= 0:
+                    fail("%s: block after saveDict failed at bound capacity" % fam)
+                else:
+                    e = strict(st, A[a_len - saved:], outB, B)
+                    if e: fail("%s: block compressed after saving %d of %d bytes of history: %s" % (fam, saved, a_len, e), dsz=dsz)
+                    if blk.nontrivial_block(outB): res["keys"].add(cc.key_of(B, fam, dsz, saved))
+        abuf.free(); work.free(); stb.free()
     else:
         # contiguous streaming: blocks laid out one after the other in one buffer
         hc = fam == "hcstream"
